@@ -278,7 +278,10 @@ func (w *World) Run(sc *Scenario, o RunOpts) *Outcome {
 	cmd.Stderr = &se
 	env := []string{
 		"PATH=/usr/bin:/bin", "HOME=" + work, "TMPDIR=" + tmp, "TZ=UTC", "LANG=C",
-		"YQ_VERIF_PLAN=" + planPath,
+		"GOTRACEBACK=all", // a fatal error may be raised on any goroutine: the dump must include goroutine 1
+	}
+	if !sc.NoHooks {
+		env = append(env, "YQ_VERIF_PLAN="+planPath)
 	}
 	if o.GOMAXPROCS > 0 {
 		env = append(env, "GOMAXPROCS="+strconv.Itoa(o.GOMAXPROCS))
